@@ -50,7 +50,6 @@ def build(u):
         u.count('R-shim-call', f.rewrite(r'\bstd::mem::take\(', 'verif_mem_take_vec('))
         u.count('R-shim-call', f.rewrite(r'\bin self\.ignore_list \{', 'in verif_btreeset_into_iter(self.ignore_list) {'))
     def prep_mono(f):
-        mono(f, u, 'T', r'Into<Arc<str>>', 'Arc<str>')
         prep(f)
     def prep_get(f):
         prep(f)
@@ -64,4 +63,4 @@ def build(u):
               'add_to_ignore_list', 'set_source_contents', 'get_source_contents', 'has_source_contents', 'add_with_id', 'add_raw', 'take_mapping', 'add', 'add_token', 'into_sourcemap']:
         emit_method(u, B, IMPL, g, 'builder::SourceMapBuilder::' + g, prep=prep_get if g in ('get_source', 'get_source_contents') else prep)
     for g in ['set_file', 'set_source_root']:
-        emit_method(u, B, IMPL, g, 'builder::SourceMapBuilder::' + g, prep=prep_mono)
+        emit_method(u, B, IMPL, g, 'builder::SourceMapBuilder::' + g, prep=prep_mono, sig_prep=lambda f: mono(f, u, 'T', r'Into<Arc<str>>', 'Arc<str>'))
